@@ -40,6 +40,9 @@ type Schema struct {
 	DiscMap  []KV     `json:"discMap,omitempty"` // value -> component schema name
 	To       string   `json:"to,omitempty"`
 	Desc     string   `json:"desc,omitempty"`
+	// Attrs: annotation keywords written next to the schema's own (readOnly, writeOnly, deprecated, example, title,
+	// default ...): none of them changes which documents are valid for the type or what its codec has to do
+	Attrs map[string]any `json:"attrs,omitempty"`
 }
 
 type Param struct {
@@ -202,6 +205,11 @@ func (b Base) NF() string {
 
 func schemaJSON(s Schema) map[string]any {
 	m := map[string]any{}
+	if s.K != "ref" {
+		for k, v := range s.Attrs {
+			m[k] = v
+		}
+	}
 	if s.Desc != "" {
 		m["description"] = s.Desc
 	}
